@@ -16,7 +16,7 @@ func (fr *Frame) callName(c *ssa.CallCommon, callee *ssa.Function) string {
 		return FuncKey(callee)
 	}
 	if c.IsInvoke() {
-		t := c.Value.Type()
+		t := types.Unalias(c.Value.Type()) // os.DirEntry = fs.DirEntry
 		if n, ok := t.(*types.Named); ok {
 			pk := ""
 			if n.Obj().Pkg() != nil {
@@ -611,6 +611,18 @@ func (fr *Frame) applyContract(fc *FuncContract, callee *ssa.Function, args []Va
 		}
 	}
 	res := vc.freshResult(shortName(fc.Key), rt)
+	// a pointer result that the contract declares unconditionally non-nil and fresh is treated exactly like an
+	// allocation made here (same syntactic distinctness from every other object as `new`)
+	for _, i := range freshResults(fc, callee, rt) {
+		slot := &res
+		var t types.Type = rt
+		if tt, ok := rt.(*types.Tuple); ok {
+			slot, t = &res.Tuple[i], tt.At(i).Type()
+		}
+		if pt, ok := t.Underlying().(*types.Pointer); ok {
+			slot.Ts = []T{fr.alloc(st, pc, pt.Elem(), "res", false)}
+		}
+	}
 	// results may be objects the callee allocated: they are alive from now on (not necessarily before the call)
 	fr.markAliveResult(st, res)
 	env2 := fr.calleeEnv(fc, callee, args, recv, st, pc)
@@ -643,13 +655,87 @@ func (fr *Frame) applyContract(fc *FuncContract, callee *ssa.Function, args []Va
 	return res, pc
 }
 
+// freshResults: indices of results for which the ensures clauses contain the top-level conjuncts `fresh(r)` and `r != nil`.
+func freshResults(fc *FuncContract, callee *ssa.Function, rt types.Type) []int {
+	if rt == nil {
+		return nil
+	}
+	n := 1
+	if tt, ok := rt.(*types.Tuple); ok {
+		n = tt.Len()
+	}
+	idx := func(name string) int {
+		if name == "result" {
+			return 0
+		}
+		for i := 0; i < n; i++ {
+			if name == fmt.Sprintf("result%d", i) || name == fmt.Sprintf("ret%d", i) {
+				return i
+			}
+			if callee != nil && callee.Signature.Results().Len() == n && callee.Signature.Results().At(i).Name() == name {
+				return i
+			}
+		}
+		return -1
+	}
+	isFresh, nonNil := map[int]bool{}, map[int]bool{}
+	var conj func(e Expr)
+	conj = func(e Expr) {
+		switch x := e.(type) {
+		case *EBinary:
+			switch x.Op {
+			case "&&":
+				conj(x.X)
+				conj(x.Y)
+			case "!=":
+				if id, ok := x.X.(*EIdent); ok {
+					_, isNil := x.Y.(*ENil)
+					if nl, ok := x.Y.(*EIdent); ok && nl.Name == "nil" {
+						isNil = true
+					}
+					if isNil {
+						if i := idx(id.Name); i >= 0 {
+							nonNil[i] = true
+						}
+					}
+				}
+			}
+		case *ECall:
+			if f, ok := x.Fun.(*EIdent); ok && f.Name == "fresh" && len(x.Args) == 1 {
+				if id, ok := x.Args[0].(*EIdent); ok {
+					if i := idx(id.Name); i >= 0 {
+						isFresh[i] = true
+					}
+				}
+			}
+		}
+	}
+	for _, cl := range fc.Of("ensures") {
+		conj(cl.Expr)
+	}
+	var out []int
+	for i := 0; i < n; i++ {
+		if isFresh[i] && nonNil[i] {
+			out = append(out, i)
+		}
+	}
+	return out
+}
+
 // freshOnHeap: the expression applies fresh() to something that is not a plain identifier (result/parameter).
 func freshOnHeap(e Expr) bool {
 	found := false
 	walkExpr(e, func(x Expr) {
 		if c, ok := x.(*ECall); ok {
 			if id, ok := c.Fun.(*EIdent); ok && id.Name == "fresh" && len(c.Args) == 1 {
-				if _, plain := c.Args[0].(*EIdent); !plain {
+				switch a := c.Args[0].(type) {
+				case *EIdent:
+				case *ECall:
+					// fresh(addr(result.f)): a by-value part of a returned object (marked alive with it)
+					if id2, ok := a.Fun.(*EIdent); !ok || id2.Name != "addr" {
+						found = true
+					}
+				default:
 					found = true
 				}
 			}
